@@ -21,7 +21,10 @@ from __future__ import annotations
 import re
 
 ASCII_WS = " \t\n\r\f\v"
-FORBIDDEN = set("|{}[]<>")          # not plain text inside a template argument
+FORBIDDEN = set("|{}")              # never plain text inside a template argument
+BRACKETS = set("[]")               # a lone bracket / angle is plain text, a pair would be a link / tag:
+ANGLES = set("<>")                 # at most one of each family in a whole argument list
+NAME_HEURISTIC = set("][&<>\"'")    # characters for which the statement does not say whether 'x=..' is still a name
 
 
 def _trim(s, mode):
@@ -53,13 +56,15 @@ def split_arg(raw):
     return None, raw
 
 
-def rule(args, mode="A"):
+def rule(args, mode="A", positional=()):
+    """The argument map of the statement.  positional: indices of arguments that contain '=' but are read as
+    positional (only used for the 'either reading' arguments of heuristic_args())."""
     d = {}
     num = 1
-    for raw in args:
+    for i, raw in enumerate(args):
         n, v = split_arg(raw)
-        if n is None:
-            d[num] = v
+        if n is None or i in positional:
+            d[num] = raw
             num += 1
         else:
             n = _trim(n, mode)
@@ -68,12 +73,12 @@ def rule(args, mode="A"):
     return d
 
 
-def keys_of(args, mode):
+def keys_of(args, mode, positional=()):
     ks = []
     num = 1
-    for raw in args:
+    for i, raw in enumerate(args):
         n, _v = split_arg(raw)
-        if n is None:
+        if n is None or i in positional:
             ks.append(num)
             num += 1
         else:
@@ -83,32 +88,80 @@ def keys_of(args, mode):
     return ks
 
 
+def heuristic_args(args):
+    """Indices of arguments 'x=v' whose x has no character at all or contains one of ] [ & < > \" ' : the statement
+    does not define what a name may consist of, so 'named x' and 'positional x=v' are both accepted for them --
+    but the three views must still give the same map."""
+    out = []
+    for i, raw in enumerate(args):
+        n, _v = split_arg(raw)
+        if n is not None and (n == "" or NAME_HEURISTIC & set(n)):
+            out.append(i)
+    return out
+
+
+def _subsets(idx):
+    if len(idx) > 3:
+        return [tuple(idx)]
+    out = []
+    for m in range(1, 1 << len(idx)):
+        out.append(tuple(x for j, x in enumerate(idx) if m >> j & 1))
+    return out
+
+
+def family(args, sub=()):
+    """The accepted maps when the arguments with indices sub (a subset of heuristic_args()) are read as positional:
+    [ASCII blanks/digits] or [ASCII, Unicode] if those differ.  sub=() is the plain reading (split at the first '=')."""
+    ra = rule(args, "A", sub)
+    ru = rule(args, "U", sub)
+    return [ra] if ra == ru else [ra, ru]
+
+
+def candidate_subsets(args):
+    return [()] + _subsets(heuristic_args(args))
+
+
 def admissible(args):
     """Precondition of the statement + domain of the quantifier.
 
-    distinct effective names (under both readings), non-blank values, non-empty
-    names, plain text only, no positional value that ENDS in a newline (the
-    quantifier speaks of leading / inner newlines only)."""
+    distinct effective names (under every accepted reading), non-blank values, plain text only (a lone [ ] < > is
+    plain text, two of a family could pair up), no positional value that ENDS in a newline (the quantifier speaks
+    of leading / inner newlines only)."""
     if not args:
         return False
+    nb = na = 0
     for raw in args:
-        if FORBIDDEN & set(raw):
+        cs = set(raw)
+        if FORBIDDEN & cs:
             return False
+        nb += sum(raw.count(c) for c in BRACKETS)
+        na += sum(raw.count(c) for c in ANGLES)
         n, v = split_arg(raw)
         if not v.strip():
             return False
         if n is None:
             if v.endswith("\n"):
                 return False
-        elif not n.strip():
+        elif n.strip() == "" and n.strip(ASCII_WS) != "":
+            return False                 # 'name' made of non-ASCII blanks only: a name in one reading, none in the other
+    if nb > 1 or na > 1:
+        return False
+    h = heuristic_args(args)
+    for i in h:
+        if args[i].endswith("\n"):      # as a positional it would end in a newline
             return False
-    for mode in ("A", "U"):
-        ks = keys_of(args, mode)
-        if len(set(map(_typed, ks))) != len(ks):
-            return False
-        # '1' vs 1 would be distinct typed keys but are one name to a reader
-        if len(set(map(str, ks))) != len(ks):
-            return False
+    for sub in [()] + _subsets(h):
+        for mode in ("A", "U"):
+            ks = keys_of(args, mode, sub)
+            if len(set(map(_typed, ks))) != len(ks):
+                return False
+            # '1' vs 1 would be distinct typed keys but are one name to a reader
+            if len(set(map(str, ks))) != len(ks):
+                return False
+            # Lua numbers are doubles: numeric names that are the same double are not distinct names there
+            nums = [k for k in ks if isinstance(k, int)]
+            if len({float(k) for k in nums}) != len(nums):
+                return False
     return True
 
 
@@ -226,6 +279,9 @@ def text_classes(s, name):
         add("dquote")
     if "&" in s:
         add("amp")
+    for ch, c in (("[", "lbracket"), ("]", "rbracket"), ("<", "lt"), (">", "gt")):
+        if ch in s:
+            add(c)
     if re.search(r"\n[*#:;=]", s):
         add("nl-marker")
     if re.search(r"\n[ \t]+\n", s) or re.search(r"^[ \t]+\n", s) or re.search(r"\n[ \t]+$", s):
@@ -251,7 +307,7 @@ def text_classes(s, name):
             add("digits")
         elif re.match(r"^[-+]?\d", s):
             add("digit-lead")
-    if re.search(r"[^\w\s=\"'&]", s):
+    if re.search(r"[^\w\s=\"'&\[\]<>]", s):
         add("punct")
     return out
 
@@ -273,12 +329,16 @@ def features(args):
         if s["kind"] != "pos":
             for c in text_classes(s["n"], True):
                 f.add("%s.n.%s" % (s["kind"], c))
+        if s["kind"] == "named" and s["n"] == "":
+            f.add("named.n.empty")
         if s["kind"] == "num":
             if s["n"].startswith("0"):
                 f.add("num.lead0")
             try:
                 if int(s["n"]) > 1000:
                     f.add("num.gt1000")
+                if int(s["n"]) > 2 ** 53:
+                    f.add("num.gt2p53")
             except ValueError:
                 pass
     if len(kinds) >= 2:
